@@ -773,6 +773,12 @@ class FnTaint:
             s = self.eng.summaries.get(tgt.key)
             if not s:
                 continue
+            # the value this very call wrote through an out-parameter, bounded by the callee before the store
+            if isinstance(lab, tuple) and len(lab) == 4 and lab[0] == "src" and lab[1] == self.fn.key and \
+                    lab[2] == tree.get("i") and isinstance(lab[3], int):
+                gk = s.get("out_guards", {}).get(lab[3])
+                if gk and (set(gk) & set(kinds)):
+                    return "%s established by %s before it stores the value" % (sorted(set(gk) & set(kinds))[0], tgt.base)
             for i, gk in s["guards"].items():
                 if i < len(args) and lab in self.labels(args[i], tree.get("b")) and (set(gk) & set(kinds)):
                     return "%s via validation helper %s" % (sorted(set(gk) & set(kinds))[0], tgt.base)
@@ -866,7 +872,7 @@ class Engine:
     def _empty(self):
         return {"sink": {}, "out": {}, "ret_deps": set(), "ret_src": False,
                 "ret_fields": set(), "ret_rem": False, "out_fields": set(),
-                "guards": {}}
+                "guards": {}, "out_guards": {}}
 
     def _plain_struct(self, cls):
         c = self.F.classes.get(cls)
@@ -954,6 +960,45 @@ class Engine:
                 kinds_found = (kinds_found or set()) | {k}
             if ok and n_ok and kinds_found:
                 s["guards"][i] = sorted(kinds_found)
+        # out-param guard summaries: `bool Read(.., uint32_t *out)` that stores only values it has bounded
+        # (`if (n > remaining) return false; *out = n; return true;`) hands a bounded value to its caller
+        if fn.ret.get("t") == "bool":
+            for i in s["out"]:
+                if i >= len(fn.params) or "d" not in fn.params[i]:
+                    continue
+                pd = fn.params[i]["d"]
+                kinds_found, ok, n_st = set(), True, 0
+                handed_on = False
+                for n, b, rk, ev in fn.calls():
+                    for a in n.get("args", []):
+                        x = a
+                        while isinstance(x, dict) and x.get("k") in ("icast", "cast", "copy", "paren"):
+                            x = x.get("e")
+                        if isinstance(x, dict) and x.get("k") == "var" and x.get("d") == pd:
+                            handed_on = True       # a callee writes through it: not judged here
+                for b, rk, tree, ev in fn.roots():
+                    if tree is None:
+                        continue
+                    for n in walk(tree):
+                        if n.get("k") != "bin" or n.get("op") != "=":
+                            continue
+                        l = n.get("l")
+                        root = l
+                        while isinstance(root, dict) and root.get("k") in ("un", "sub", "field", "icast", "cast", "paren"):
+                            root = root.get("e") or root.get("base")
+                        if not (isinstance(root, dict) and root.get("k") == "var" and root.get("d") == pd) or l is root:
+                            continue
+                        n_st += 1
+                        for lab in ft.labels(n.get("r"), b.id):
+                            if not is_src(lab):
+                                continue
+                            why = ft.bounded(lab, b.id, ("G1", "G2", "G3", "G4"))
+                            if not why:
+                                ok = False
+                            else:
+                                kinds_found.add(why.split()[0])
+                if ok and n_st and kinds_found and not handed_on:
+                    s["out_guards"][i] = sorted(kinds_found)
         return s
 
     def _run(self):
@@ -980,7 +1025,8 @@ def _sig(s):
     return (tuple(sorted((k, tuple(sorted(v))) for k, v in s["sink"].items())),
             tuple(sorted((k, tuple(sorted(map(str, v)))) for k, v in s["out"].items())),
             tuple(sorted(s["ret_deps"])), s["ret_src"], tuple(sorted(s["ret_fields"])),
-            s["ret_rem"], tuple(sorted((k, tuple(v)) for k, v in s["guards"].items())))
+            s["ret_rem"], tuple(sorted((k, tuple(v)) for k, v in s["guards"].items())),
+            tuple(sorted((k, tuple(v)) for k, v in s.get("out_guards", {}).items())))
 
 
 class Sink:
